@@ -382,7 +382,7 @@ func TestUpdateScripts(t *testing.T) {
 			cl = append(cl, "non-utf8-script")
 		}
 		return vt.Meta{NonTrivial: last.updated && last.untouchedAfter, Classes: cl}
-	}}, vt.N(300, 15000))
+	}}, vt.N(300, 8000))
 }
 
 var replayers = vt.Replayer{"update": vt.Decode(checkUpdate)}
